@@ -29,7 +29,7 @@ MANIFEST = {
     "level_note": "Coverage-guided fuzzing, which the property's quantifier names, is outside this technique: the structured "
                   "enumeration from the packet grammar replaces it (every field boundary +-1, every length prefix, every id, "
                   "sequence and header-length class, and their pairs), so byte sequences that are not within two operators of "
-                  "a well-formed seed packet are not explored.  One seed per packet kind (15 kinds; statements with three "
+                  "a well-formed seed packet are not explored.  One seed per packet kind (16 kinds, one of them on a session whose database the namespace does not know; statements with three "
                   "parameters long/var_string/datetime); 'hang' is judged with a 30 s read deadline on the offending session "
                   "after the client has half-closed where the framing is broken; backend faults are not injected.",
     "technique": "TLA+ spec + TLC enumeration of malformed packets; cases rendered to bytes against a real Server on "
@@ -97,6 +97,8 @@ def execute(ctx, cases, label):
         idx = [i for i, x in enumerate(remaining) if x["id"] == crashed][0]
         remaining = remaining[idx + 1:]
     ctx.cov["process_restarts_after_crash"] = ctx.cov.get("process_restarts_after_crash", 0) + restarts
+    if summ is not None and summ.get("aborted_with_cases_left"):
+        ctx.notes.append("the proxy stopped serving every session: run ended with %d cases unexamined" % summ["aborted_with_cases_left"])
     verdicts = _proto.judge(ctx, lines, _proto.MALFORM_KEEP)
     ctx.cov["traces_validated_against_impl"] += len(all_obs)
     ctx.cov["evaluations"] += len(all_obs)
